@@ -1729,7 +1729,8 @@ class UTPM(Ring, RawAlgorithmsMixIn):
             # try to infer the dtype from x
             dtype= x.dtype
 
-            if dtype==int:
+            # any integer (or boolean) dtype, not only the default int64
+            if numpy.issubdtype(dtype, numpy.integer) or dtype == bool:
                 dtype=float
 
 
@@ -1783,7 +1784,8 @@ class UTPM(Ring, RawAlgorithmsMixIn):
             # try to infer the dtype from x
             dtype= x.dtype
 
-            if dtype==int:
+            # any integer (or boolean) dtype, not only the default int64
+            if numpy.issubdtype(dtype, numpy.integer) or dtype == bool:
                 dtype=float
 
 
@@ -1855,6 +1857,8 @@ class UTPM(Ring, RawAlgorithmsMixIn):
         """
 
         x = numpy.ravel(x)
+        if numpy.issubdtype(x.dtype, numpy.integer) or x.dtype == bool:
+            x = x.astype(float)
 
         # generate directions
         N = x.size
@@ -1922,7 +1926,8 @@ class UTPM(Ring, RawAlgorithmsMixIn):
             # try to infer the dtype from x
             dtype= x.dtype
 
-            if dtype==int:
+            # any integer (or boolean) dtype, not only the default int64
+            if numpy.issubdtype(dtype, numpy.integer) or dtype == bool:
                 dtype=float
 
         N = numpy.size(x)
